@@ -524,6 +524,59 @@ def r5_eio_disconnect(ctx, fam):
                             where(f, s))
 
 
+def r9_refusal_contained(ctx, fam):
+    """every invocation of the connect handler may raise
+    ConnectionRefusedError (or TypeError: legacy signature); a refusal raised
+    by ANY invocation - the retry included - is caught inside
+    _handle_connect and ends in the refusal branch."""
+    m = ctx.model
+    f = m.method(SERVER[fam], '_handle_connect')
+    construct = SERVER[fam] + '._handle_connect'
+
+    def raiser(e):
+        if e.kind == 'call' and e.callee() == '_trigger_event' and \
+                e.expr.args and is_const(e.expr.args[0], 'connect'):
+            return [{'TypeError'}, {'ConnectionRefusedError'}]
+        return None
+    run = run_function(f, m, raiser=raiser)
+    n = 0
+    seen = set()
+    for p in run.paths:
+        trig = trigger_calls(p, 'connect')
+        if not trig:
+            continue
+        if p.exit == 'exc' and p.types == {'ConnectionRefusedError'}:
+            n += 1
+            if id(p.origin.node if p.origin else None) in seen:
+                continue
+            seen.add(id(p.origin.node if p.origin else None))
+            ctx.bad(construct, 'refusal-escapes', 'a ConnectionRefusedError '
+                    'raised by invocation #%d of the connect handler (line '
+                    '%d) is not caught: no CONNECT_ERROR is sent and the '
+                    'refused sid keeps its membership' % (
+                        trig.index(p.origin) + 1 if p.origin in trig else 0,
+                        p.origin.lineno if p.origin else 0),
+                    where(f, p.origin.node if p.origin else None))
+            continue
+        refused = [e for e in p.events if e.kind == 'caught' and
+                   'ConnectionRefusedError' in U(e.expr)]
+        if refused and p.normal:
+            n += 1
+            rel = [e for e in p.calls('disconnect')
+                   if e.recv() == 'self.manager']
+            S = sends(run, p)
+            types = [pk['type'] if pk else None for _, pk, _ in S]
+            ctx.check(len(rel) == 1 and (
+                'CONNECT_ERROR' in types or 'DISCONNECT' in types),
+                construct, 'caught refusal (handler invocation #%d): refusal '
+                'packet and release' % len(trig), key='refusal-handled',
+                reason='a caught ConnectionRefusedError leads to packets %s '
+                'and %d release(s)' % (types, len(rel)), where=where(f))
+    if not n:
+        ctx.bad(construct, 'no-refusal-path', 'no path catches a '
+                'ConnectionRefusedError of the connect handler', where(f))
+
+
 def r6_manager(ctx):
     m = ctx.model
     f = m.method('BaseManager', 'is_connected')
@@ -745,6 +798,11 @@ def run(ctx):
              'packet with the refusal data, membership released', floor=20)
     for fam in SA:
         r4_connect(ctx, fam)
+    ctx.rule('C04.R9', 'a refusal raised by any invocation of the connect '
+             'handler (legacy-signature retry included) is contained and '
+             'handled as a refusal', floor=4)
+    for fam in SA:
+        r9_refusal_contained(ctx, fam)
     ctx.rule('C04.R5', 'transport loss ends every namespace', floor=2)
     for fam in SA:
         r5_eio_disconnect(ctx, fam)
